@@ -171,12 +171,34 @@ Fixpoint counts_natural (fuel : nat) (rho : string -> Q) (t : ctree expr) : bool
       end && forallb (counts_natural f rho) (ct_children t)
   end.
 
+(* The symbolic backend decides more equalities than the polynomial normal form of Compare.v does (Max(N + 2, N) - N is 2
+   to sympy, an atom minus N to the model).  When the code rejects a constraint the model retains as UNDECIDED, the two
+   agree as far as the model can tell provided the two sides of some retained undecided constraint differ at every sample
+   point: C06 lets compilation fail exactly when the sizes differ for every assignment. *)
+Fixpoint undecided_but_violated (fuel : nat) (pts : list (string -> Q)) (t : ctree expr) : bool :=
+  match fuel with
+  | O => false
+  | S f =>
+      existsb (fun c => match snd c with
+                        | CInconclusive =>
+                            negb (Nat.eqb (List.length pts) 0)
+                            && forallb (fun rho => match evalQ rho (fst (fst c)), evalQ rho (snd (fst c)) with
+                                                   | Some a, Some b => negb (Qeq_bool a b)
+                                                   | _, _ => false
+                                                   end) pts
+                        | _ => false
+                        end) (ct_constraints t)
+      || existsb (undecided_but_violated f pts) (ct_children t)
+  end.
+
 (* tie: implementation vs model (compile_routine) *)
 Definition tie_compile (r : routine) (impl : impl_result) (inexact : bool) (pts : list (list (string * Q))) : list nat :=
   match compile_routine r, impl with
   | Ok m, IOk t => (cmp_trees (S (ct_height m)) inexact
                               (filter (fun rho => counts_natural (S (ct_height m)) rho m) (points_of pts)) m t
                     ++ cmp_params (S (ct_height m)) m t)%list
+  | Ok m, IErr cls => [if String.eqb cls "BartiqCompilationError" && undecided_but_violated (S (ct_height m)) (points_of pts) m
+                       then 0%nat else 1%nat]
   | res, IErr cls => [if String.eqb (err_class res) cls then 0%nat else 1%nat]
   | res, IOk _ => [1%nat]
   end.
@@ -321,7 +343,12 @@ Definition is_err (i : impl_result) : bool := match i with IErr _ => true | IOk 
 Definition check_eval_case (compiled : ctree expr) (s : env) (fm : list fimpl) (self_ref : bool)
            (e1 e2 e3 : impl_result) (inexact : bool) (pts : list (list (string * Q))) : list nat * list nat :=
   let fuel := S (ct_height compiled) in
-  let rs := points_of pts in
+  (* C07's domain: every repetition count of the hierarchy is a natural number at the assigned point (a count linked from
+     a port size such as L - N may come out negative: what a repetition over -14 rounds costs is nobody's business) *)
+  let rs := filter (fun r => match env_afterQ r (map (fun kv => (fst kv, apply_funs fm (snd kv))) s) with
+                             | Some r' => counts_natural fuel r' (map_tree (apply_funs fm) compiled)
+                             | None => true
+                             end) (points_of pts) in
   let model := match evaluate s compiled with Ok m => Ok (map_tree (apply_funs fm) m) | x => x end in
   let tie :=
       match model, e1 with
